@@ -721,6 +721,13 @@ def check(run, db, tier):
                          ('prysm.propagation.Wavefront.pad2d', 'pad2d'), ('prysm.propagation.Wavefront.crop', 'crop_center'),
                          ('prysm.interferogram.Interferogram.pad', 'pad2d')):
         fi, cs = calls_in(qual)
+        if callee not in cs:
+            from .common import executed_calls
+            cs = sorted(set(cs) | executed_calls(db, fi))
+        if callee not in cs:
+            # neither the syntax tree nor the interpretation reaches the shared helper: how this site places its centre is not
+            # followed by this rule (the value rules above still judge what it computes).  Not a statement about the code.
+            raise AnalysisError('%s: no call of %s is reached (calls seen: %s): which routine places the centre here is not followed' % (fi.qual, callee, sorted(set(cs))[:12]))
         run.check(callee in cs, 'C04.who', fi.qual, 'delegates to ' + callee, '%s delegates to %s' % (fi.name, callee),
                   '%s no longer delegates to %s (calls: %s)' % (fi.qual, callee, sorted(set(cs))), fi.loc())
     # RichData.x/y: axis order of the unpack
